@@ -38,6 +38,10 @@ type Runner[T runnable] struct {
 	// will be set by Run()
 	ctx context.Context
 
+	// cancels the context the children of the current generation were started with;
+	// set by boot(), used by stopAllRunnables(), both under runnablesMu
+	childCancel context.CancelFunc
+
 	serverErrors chan error
 	logger       *slog.Logger
 }
@@ -189,6 +193,11 @@ func (r *Runner[T]) boot(ctx context.Context) error {
 
 	logger.Debug("Starting child runnables...", "count", len(cfg.Entries))
 
+	// Every generation of children gets its own context. stopAllRunnables cancels it, so a
+	// child whose Run() had not begun when its Stop() was called (Stop has nothing to stop
+	// yet) still ends instead of outliving the restart.
+	ctx, r.childCancel = context.WithCancel(ctx)
+
 	// Use a temporary WaitGroup to track that all goroutines have started.
 	var startWg sync.WaitGroup
 	startWg.Add(len(cfg.Entries))
@@ -260,6 +269,12 @@ func (r *Runner[T]) stopAllRunnables() error {
 
 	// Wait for all runnables to complete stopping
 	wg.Wait()
+
+	// End the generation: reaches children whose Run() starts only now
+	if r.childCancel != nil {
+		r.childCancel()
+		r.childCancel = nil
+	}
 	return nil
 }
 
